@@ -700,7 +700,7 @@ SPEC = {
     "C12": ("Charging/PropsC12.v", {1, 3, 4, 5, 6, 7}, [("multi", 18)] * 14 + [("single", 12)] * 4),
     "C11": ("Charging/PropsC11.v", {1}, [("multi", 14)] * 8 + [("single", 10)] * 4 + [("split", 6)] * 2),
 }
-KNOWN = {"C01/usage-in-create-not-rated", "C06/no-final-unit-indication-in-debit-mode",
+KNOWN = {"C01/usage-in-create-not-rated",
          "C06/shared-reservation-across-sessions", "C03/record-exceeds-65535"}
 
 
